@@ -1,22 +1,44 @@
-(* Proof/Fun2CoreTyRefute.v (C12) - finding main-non-integer-result: an accepted program - accepted by the
-   model of the checker AND well-typed according to the declarative specification Sem/FunTyping.v - with no
-   capture risk and no call of main whose translation is an ILL-TYPED Core program: the declared return type
-   of main is not i64, and compile_main types the operand of the final `exit` with it.  The annotated form is
-   the real checker's output for corpus/fun/c12_main_nonint.sc (compared by modelrun wt-stages on every run). *)
+(* Proof/Fun2CoreTyRefute.v (C12)
+   (1) REGRESSION, former finding main-non-integer-result (fixed in /repo by <commit12>): `data Bar { B }
+       def main(): Bar { B }` was ACCEPTED by the checker that never looked at the return type of main
+       ([Check.old_check_main]); it has no capture risk and no call of main, and its translation is an ILL-TYPED Core
+       program: compile_main types the operand of the final `exit` with the declared return type.  The checker now
+       rejects it (Mismatch), and so does the specification Sem/FunTyping.v (rule main : i64).  The annotated form was
+       the real checker's output for corpus/fun/c12_main_nonint.sc before the fix (modelrun wt-stages still compares it
+       whenever a checker accepts that file).
+   (2) the unguarded statement `accepted + Barendregt -> the translation is well typed` stays FALSE of the current
+       checker because of the known finding call-to-main: corpus/fun/call_main_nontail.sc is accepted, satisfies the
+       Barendregt condition, and `main(0, mu~ r. ..)` against `def main(n)` has the wrong number of arguments. *)
 From Coq Require Import List ZArith NArith String Bool.
-From SCC Require Import Lang.FunSyn Lang.CoreSyn Model.Check Sem.FunTyping Sem.CoreCheck Model.Fun2Core
+From SCC Require Import Lang.FunSyn Lang.CoreSyn Model.Check Sem.FunTyping Sem.FunErase Sem.CoreCheck Model.Fun2Core
      Model.Fun2CoreTyGuard.
 Import ListNotations.
 
-Lemma fun2core_main_result_refuted_lemma :
+Lemma old_fun2core_main_result_refuted_lemma :
   exists (src : fprog) (p : fcprog) (c : cprog),
-    has_type_b src = true /\ Check.check src = COk p /\ annotated_fcprog p = true /\
+    Check.old_check_main src = COk p /\ Check.check src = CErr EMismatch /\ has_type_b src = false /\
+    annotated_fcprog p = true /\
     compile_prog p = Fun2Core.Ok c /\ wt_core c = false /\
     shadowing_risk_prog p = false /\ calls_main_prog p = false /\ barendregt p = true /\
     prog_tyguard p = false.
 Proof.
   exists main_nonint_source, main_nonint_witness.
   destruct (compile_prog main_nonint_witness) as [c|m] eqn:E; [|vm_compute in E; discriminate].
+  exists c. repeat split; try (vm_compute; reflexivity).
+  revert E. vm_compute. intros E. inversion E. reflexivity.
+Qed.
+
+(* the source of call_main_witness: the checked program with its annotations erased *)
+Definition call_main_source : fprog := mkfprog (map (fun d => FDDef (erase_def d)) (fcpdefs call_main_witness)).
+Lemma fun2core_call_main_typing_refuted_lemma :
+  exists (src : fprog) (p : fcprog) (c : cprog),
+    has_type_b src = true /\ Check.check src = COk p /\ annotated_fcprog p = true /\
+    compile_prog p = Fun2Core.Ok c /\ wt_core c = false /\
+    shadowing_risk_prog p = false /\ calls_main_prog p = true /\ barendregt p = true /\
+    prog_tyguard p = false.
+Proof.
+  exists call_main_source, call_main_witness.
+  destruct (compile_prog call_main_witness) as [c|m] eqn:E; [|vm_compute in E; discriminate].
   exists c. repeat split; try (vm_compute; reflexivity).
   revert E. vm_compute. intros E. inversion E. reflexivity.
 Qed.
